@@ -18,6 +18,7 @@ def check(A):
         S.upgrade_exit_state(A, fl, 'C03')
         R.api_rules(A, fl, 'C03')
         R.response_rules(A, fl, 'C03', parts=('reap',))
+        R.get_result_rule(A, fl, 'C03')
     R.isolation_rules(A, 'C03')
     R.jsonp_rule(A, 'C03')
     R.driver_send_rule(A, 'C03')
